@@ -191,6 +191,12 @@ func applySet(skel *Skeleton, op Op, path *Path) error {
 
 // applyDelete removes the target if it exists; missing target is a no-op.
 func applyDelete(skel *Skeleton, path *Path) error {
+	// The [] marker is only meaningful for APPEND / PREPEND. Reject it before
+	// resolving: Resolve reports a nil Target for it, which would otherwise be
+	// taken for "missing target" and answered with a successful no-op.
+	if path.Segments[len(path.Segments)-1].Kind == SegAppend {
+		return fmt.Errorf("%w: DELETE cannot target append marker", ErrPathInvalid)
+	}
 	cur, err := path.Resolve(skel)
 	if err != nil {
 		return err
@@ -205,8 +211,6 @@ func applyDelete(skel *Skeleton, path *Path) error {
 	case SegIndex:
 		idx := cur.TargetIdx
 		cur.Parent.ArrayItems = append(cur.Parent.ArrayItems[:idx], cur.Parent.ArrayItems[idx+1:]...)
-	case SegAppend:
-		return fmt.Errorf("%w: DELETE cannot target append marker", ErrPathInvalid)
 	}
 	return nil
 }
